@@ -272,7 +272,11 @@ def step (s : Sess) (toks : List String) : Sess × String :=
   | ["copyobs", c] =>
     match c.toNat? with
     | some c => if c ≥ s.circs.size then bad else
+      -- `structure.copy()` never evaluates a relation of the ORIGINAL (the links are copied member by member); what is listed,
+      -- and where `has_relation` is evaluated, is the COPY — which can be defined where the original is not (a dropped group
+      -- member, R24): the definedness guard looks at the copy (false alarm of the quick soak, seed 34)
       let (w, cp) := s.w.copy s.circs[c]!
+      if !multiDefined w w.depthFuel cp then ({ s with w := { w with undef := true } }, "undef") else
       let (w, out) := showListing w cp
       ({ s with w := w }, out)
     | none => bad
@@ -300,7 +304,7 @@ def step (s : Sess) (toks : List String) : Sess × String :=
   | _ => bad
 
 /-- commands whose implementation walks the (mutating) listing of circuit `c` (first argument). -/
-def listingCommands : List String := ["list", "ops", "flatten", "copyobs", "plot"]
+def listingCommands : List String := ["list", "ops", "flatten", "plot"]
 
 /-- the definedness guard around a command interpreter: once a build step or a listing needed an undefined
     (cyclic) reference — where the code raises `RecursionError` — every answer is `undef` (sticky). -/
